@@ -70,15 +70,23 @@ BR['overlays'] = ['contracts/next_page.ovl', 'contracts/column_reader.ovl', 'con
 BR['harness'] = 'harness/C02/batch.c'
 BR['trusted'] = CR['trusted'] + ['stubs/colreader_stubs.c: arena init/calloc/destroy as contracts',
                                   'batch harness: carquet_reader_schema / num_row_groups / column_has_next / column_remaining restated from file_reader.c (one-line getters)', 'batch harness: row group already open, flat schema, column reader type/max_def equal to the schema (what carquet_reader_get_column sets)']
-JOBS.append(dict(name='c02_batch_next_int32', entry='h_batch_next', replace=['carquet_column_read_batch', 'carquet_read_next_page', 'load_next_page'],
-                 functions=['carquet_batch_reader_next', 'carquet_row_batch_free'], unwind=4, min_loop_obligations=2,
-                 level='bounded', bound='1..2 projected of 1..3 INT32 columns, row group open; rows unbounded',
-                 wip=True, est_s=120, timeout=600, defines=['CQV_TYPE=1'], **BR))
+BRJ = dict(entry='h_batch_next', replace=['carquet_column_read_batch', 'carquet_read_next_page', 'load_next_page'],
+           functions=['carquet_batch_reader_next', 'carquet_row_batch_free'], unwind=4, min_loop_obligations=2, level='bounded')
+# one projected column out of two file columns: null bitmap (ghost row, rows unbounded), max_def index, required column
+JOBS.append(dict(name='c02_batch_next_int32', wip=True, est_s=60, timeout=600, defines=['CQV_TYPE=1', 'CQV_NP_MAX=1', 'CQV_NL_MAX=2'],
+                 bound='1 projected column of 1..2 INT32 file columns, row group open; rows unbounded', **BRJ, **BR))
+# two projected columns: every column of a batch has the same number of rows
+JOBS.append(dict(name='c02_batch_rows_int32', wip=True, est_s=300, timeout=900, mem_gb=12, defines=['CQV_TYPE=1', 'CQV_NP_MAX=2', 'CQV_NL_MAX=2', 'CQV_NP_EXACT=1'],
+                 checks=['--bounds-check'],   # memory safety of the column body: c02_batch_next_int32
+                 bound='exactly 2 projected columns of 2 INT32 file columns, row group open; rows unbounded',
+                 note='FINDING: zero-copy path (mmap, REQUIRED column, page smaller than the batch) delivers page_num_values rows '
+                      'while the other columns deliver rows_to_read -> columns of one batch differ in length (native: /tmp/colreader/demo_zc)',
+                 **BRJ, **BR))
+# C19: the same one-column job with every allocation allowed to fail (cbmc 6 default) + leak check
 BR19 = dict(BR)
 BR19['cbmc_flags'] = []
 BR19['prop'] = 'C19'
-JOBS.append(dict(name='c19_batch_next_int32', entry='h_batch_next', replace=['carquet_column_read_batch', 'carquet_read_next_page', 'load_next_page'],
-                 functions=['carquet_batch_reader_next', 'carquet_row_batch_free'], unwind=4, min_loop_obligations=2,
-                 level='bounded', bound='1..2 projected of 1..3 INT32 columns, row group open; rows unbounded; any subset of allocations fails',
+JOBS.append(dict(name='c19_batch_next_int32', wip=True, est_s=120, timeout=600, defines=['CQV_TYPE=1', 'CQV_NP_MAX=1', 'CQV_NL_MAX=2'],
+                 bound='1 projected column of 1..2 INT32 file columns, row group open; rows unbounded; any subset of allocations fails',
                  checks=['--bounds-check', '--pointer-check', '--div-by-zero-check', '--signed-overflow-check', '--undefined-shift-check', '--memory-leak-check'],
-                 wip=True, est_s=120, timeout=600, defines=['CQV_TYPE=1'], **BR19))
+                 **BRJ, **BR19))
